@@ -26,7 +26,14 @@ class SPEC:
             "then data sets at seeded random phases (UDP: ~3 s with TempRefTimeout = 1 s, some sends placed within 5 ms of a refresh "
             "tick, the Close within a few ms of the third tick in some sessions; TCP: CheckConnInterval = 50 ms, then a SendSet every "
             "10 ms across the moment the harness closes / half-closes the accepted connection, or a pause across it); then "
-            "CloseConnToCollector from 1-4 goroutines at once, 1-3 calls each; then further sends. Observation: every datagram / stream "
+            "CloseConnToCollector from 1-4 goroutines at once, 1-3 calls each; then further sends. One UDP session in five is "
+            "'unrefreshable': the application also sends, before the first tick, one template with a dateTimeMicroseconds / "
+            "dateTimeNanoseconds element of the registry (sending it works; entities.MakeTemplateSet cannot rebuild it), and keeps sending "
+            "data sets of its other templates across the first tick: the first refresh must close the process without writing - sends "
+            "before the tick succeed, sends after tick + slack fail and write nothing, no refresh ever arrives (Spec.C14.udpUnrefreshable; "
+            "'cannot be rebuilt' is derived by the Spec from the element types with the model's makeTemplateSet, the op's marker "
+            "must agree). Every SendSet call is under a 2 s watchdog: a call that does not return is recorded as `hung` (verdict "
+            "send-never-returned) and the session still ends. Observation: every datagram / stream "
             "chunk with arrival time, every SendSet result with call and return time, peer-close and Close times, background goroutines "
             "left (pprof labels), recovered panics, race-detector log. Spec.C14.udpVerdict / tcpVerdict (Lean, independent RFC 7011 "
             "parser) is evaluated on the implementation's observation of every session; the Lean event model's canonical run of the "
@@ -45,6 +52,8 @@ class SPEC:
         "exporter's own end of stream within the same bound",
         "'no byte afterwards' = no datagram / chunk stamped later than 200 ms (150 ms TCP) after the last Close call returned, listening for 1.5 s",
         "the application calls SendSet from one goroutine; Close may come from any number of goroutines",
+        "unrefreshable sessions: the k-th refresh tick fires between k*P - 50 ms and (with its work) k*P + 400 ms after InitExportingProcess "
+        "returned; sends in between may succeed or fail; a SendSet call is 'never returning' when it has not returned after 2 s",
         "UDP on the loopback interface neither loses nor reorders datagrams (4 MiB receive buffer, dedicated reader goroutine)",
         "lockset: syntactic lock regions (Lock() ... Unlock() by source position, deferred Unlock = to the end of the function); the "
         "configuration field jsonBufferLen is assigned by InitExportingProcess after its `go` statements and is statically reachable from "
@@ -99,12 +108,13 @@ def build_harness():
 
 TIDS = [256, 257, 258, 300, 4000, 65535]
 UDP_SLACK, UDP_GRACE = 400, 200
+UDP_EARLY = 50            # unrefreshable sessions: a tick may fire this much before k * refresh (ms)
 TCP_CHECK, TCP_SLACK, TCP_GRACE = 50, 200, 150
 
 
 def simple_ies(rng, sup):
     """1-5 registry elements of types with small encodings (keeps every message far below any MTU question)"""
-    pool = [ie for ie in sup if ie.ty in (1, 2, 3, 4, 11, 12, 13, 14, 18, 19)]
+    pool = [ie for ie in sup if ie.ty in (0, 1, 2, 3, 4, 11, 12, 13, 14, 18, 19) and (ie.ty != 0 or ie.len == 65535)]   # incl. variable-length octet arrays
     return [rng.choice(pool) for _ in range(rng.choice([1, 2, 3, 5]))]
 
 
@@ -166,6 +176,66 @@ def udp_scenario(rng, sup, k):
         "!".join("%d~%s" % s for s in sends), tail), "udp:%dtpl:%dclosers" % (len(tpls), closers))
 
 
+def unrefreshable_ies(rng, sup):
+    """0-4 ordinary elements and, somewhere among them, ONE registry element of a type the library cannot make a zero value of
+    (dateTimeMicroseconds = 16, dateTimeNanoseconds = 17: flowStartMicroseconds, flowEndNanoseconds, ...): a template with it can
+    be SENT (template records carry no values) but not rebuilt by entities.MakeTemplateSet"""
+    bt = G.by_type()
+    bad = rng.choice(bt[rng.choice([16, 17])])
+    pool = [ie for ie in sup if ie.ty in (0, 1, 2, 3, 4, 11, 12, 13, 14, 18, 19) and (ie.ty != 0 or ie.len == 65535)]   # incl. variable-length octet arrays
+    ies = [rng.choice(pool) for _ in range(rng.choice([0, 1, 2, 4]))]
+    ies.insert(rng.randint(0, len(ies)), bad)
+    return ies
+
+
+def udp_unrefreshable_scenario(rng, sup, k):
+    """D17 (repaired in b1c9ab2): besides its ordinary templates the application sends - before the first refresh tick - a
+    template the refresher cannot rebuild, and goes on sending data sets of the OTHER templates before, around and after the
+    tick. Expected (Model/Lifecycle.lean refreshTick, Props/C14 unbuildable_refresh_closes): the first tick closes the process
+    without writing; every SendSet returns - with an error once the process is closed."""
+    tpls, groups = templates(rng, sup)
+    bad_tid = rng.choice([t for t in TIDS if t not in [x[0] for x in tpls]])
+    bad = (bad_tid, unrefreshable_ies(rng, sup))
+    if rng.random() < 0.3:                           # in one template set with an ordinary template
+        i = rng.randrange(len(groups))
+        groups[i] = groups[i] + [bad] if rng.random() < 0.5 else [bad] + groups[i]
+    else:
+        groups.insert(rng.randint(0, len(groups)), [bad])
+    refresh = 1
+    close_at = 3000 + rng.randint(-4, 4) if rng.random() < 0.3 else rng.randint(2900, 3600)
+    sends = []
+    t = rng.randint(0, 30)
+    for g in groups:
+        sends.append((t, tpl_desc(rng, g)))
+        t += rng.randint(1, 120)                     # the last template goes out before 30 + 4 * 120 = 510 ms
+    last_tpl = sends[-1][0]
+    times = set()
+    for tick in (1000, 2000, 3000):                  # sends racing the (failing) refresh and the ticks that no longer come
+        for _ in range(rng.randint(1, 3)):
+            x = tick + rng.randint(-5, 5)
+            if last_tpl < x < close_at - 25:
+                times.add(x)
+    for _ in range(rng.randint(1, 3)):               # certainly before the tick
+        times.add(rng.randint(last_tpl + 1, 1000 - UDP_EARLY - 30))
+    for _ in range(rng.randint(2, 4)):               # certainly after it: these must all return, with an error
+        times.add(rng.randint(1000 + UDP_SLACK + 20, close_at - 25))
+    for _ in range(rng.randint(2, 8)):
+        times.add(rng.randint(last_tpl + 1, close_at - 25))
+    for x in sorted(times):
+        tid, ies = rng.choice(tpls)
+        sends.append((x, data_desc(rng, tid, ies, rng.choice([1, 1, 2, 3]))))
+    tid, ies = rng.choice(tpls)
+    tail = "3~5~" + data_desc(rng, tid, ies, 1)
+    if rng.random() < 0.5:
+        closers, reps = 1, 2
+    else:
+        closers, reps = rng.randint(2, 4), rng.randint(1, 3)
+    return ("life udp x%d dom=%d refresh=%d slack=%d grace=%d closeat=%d closers=%d reps=%d unrefreshable=%d early=%d sends=%s tail=%s" % (
+        k, rng.choice([0, 1, 7, 0xffffffff, rng.getrandbits(32)]), refresh, UDP_SLACK, UDP_GRACE, close_at, closers, reps,
+        bad_tid, UDP_EARLY, "!".join("%d~%s" % s for s in sends), tail),
+        "udp-unrefreshable:%dtpl+1:%dclosers" % (len(tpls), closers))
+
+
 def tcp_scenario(rng, sup, k, mode):
     tpls, groups = templates(rng, sup)
     sends = []
@@ -222,6 +292,12 @@ def gen_cases(tier, seed):
     modes = ["full", "half", "idle", "full", "half", "idle", "cclose", "full", "half", "idle", "cclose", "full"]
     for k in range(n):
         op, label = tcp_scenario(rng, sup, k, modes[k % len(modes)])
+        cases.append(Case([op], label, True, True))
+    # unrefreshable UDP sessions: one for every four ordinary ones (quick: 3 + 12), from a generator of their own, so
+    # that the ordinary sessions of a seed are what they were before these were added
+    rng_x = random.Random(seed * 1000003 + 1417)
+    for k in range(max(3, n // 4)):
+        op, label = udp_unrefreshable_scenario(rng_x, sup, k)
         cases.append(Case([op], label, True, True))
     return cases
 
@@ -307,7 +383,9 @@ def summarize(obs):
         elif t.startswith("sends="):
             v = t[6:]
             items = [] if v == "-" else v.split(",")
-            out.append("sends=<%d calls, %d ok>" % (len(items), sum(1 for x in items if ":ok:" in x)))
+            hung = [x for x in items if ":hung:" in x]
+            out.append("sends=<%d calls, %d ok%s>" % (len(items), sum(1 for x in items if ":ok:" in x),
+                                                      "".join(", NEVER RETURNED: " + x for x in hung)))
         else:
             out.append(t)
     return " ".join(out)
@@ -338,9 +416,35 @@ def run(ctx):
         proto = c.ops[0].split(" ")[1]
         # model echo vs implementation: number of scheduled sends that succeeded (UDP: all of them precede the close)
         mk = dict(t.split("=", 1) for t in m0.split(" ")[2:] if "=" in t)
+        opkv = dict(t.split("=", 1) for t in c.ops[0].split(" ")[3:] if "=" in t)
+        unref = opkv.get("unrefreshable")
         if not m0.startswith("expect ") or mk.get("closed") != "true" or mk.get("stop-closes") != "1" or mk.get("spec") != "true":
             disagreements.append({"case": ci, "ops": c.ops, "impl": summarize(o), "model": m0, "label": c.label,
                                   "what": "the Lean model's canonical run does not end closed once with a well-formed wire"})
+        elif mk.get("unbuildable") != (unref or "-"):
+            disagreements.append({"case": ci, "ops": c.ops, "impl": summarize(o), "model": m0, "label": c.label,
+                                  "what": "the op says unrefreshable=%s, the Lean model cannot rebuild: %s" % (unref or "-", mk.get("unbuildable"))})
+        elif unref is not None:
+            # the model's canonical run: the first tick (refresh * 1000 ms) closes the process without a refresh; exactly the
+            # sends scheduled before it succeed. Implementation: a send CALLED before tick - early succeeded, one called
+            # after tick + slack did not (in between either; the Spec judges the same on every call, with its reason)
+            tick = int(opkv["refresh"]) * 1000
+            sched = [int(x.split("~", 1)[0]) for x in opkv["sends"].split("!")]
+            before = sum(1 for x in sched if x < tick)
+            if mk.get("app-ok") != str(before) or mk.get("refresh") != "0":
+                disagreements.append({"case": ci, "ops": c.ops, "impl": summarize(o), "model": m0, "label": c.label,
+                                      "what": "the Lean model's canonical run of an unrefreshable session: app-ok=%s refresh=%s, expected the %d "
+                                              "sends scheduled before the first tick and no refresh" % (mk.get("app-ok"), mk.get("refresh"), before)})
+            elif o.startswith("udp "):
+                ok_kv = dict(t.split("=", 1) for t in o.split(" ")[1:] if "=" in t)
+                es = [x.split(":") for x in ok_kv.get("sends", "-").split(",") if x.startswith("e")]
+                ok_e = sum(1 for x in es if x[3] == "ok")
+                lo = sum(1 for x in es if int(x[1]) < (tick - int(opkv["early"])) * 1000)
+                hi = sum(1 for x in es if int(x[1]) < (tick + int(opkv["slack"])) * 1000)
+                if not lo <= ok_e <= hi:
+                    disagreements.append({"case": ci, "ops": c.ops, "impl": summarize(o), "model": m0, "label": c.label,
+                                          "what": "scheduled sends that succeeded: implementation %d, expected between %d (called before the first "
+                                                  "tick) and %d (called before tick + slack); model %s" % (ok_e, lo, hi, mk.get("app-ok"))})
         elif proto == "udp" and o.startswith("udp "):
             ok_kv = dict(t.split("=", 1) for t in o.split(" ")[1:] if "=" in t)
             sends = ok_kv.get("sends", "-")
@@ -361,6 +465,11 @@ def run(ctx):
             note += " || race detector: " + excerpt
         if o.startswith("crash"):
             note += " || " + o
+        if kind == "send-never-returned":
+            hung = [x for x in o.split("sends=")[-1].split(" ")[0].split(",") if ":hung:" in x]
+            note += (" || SendSet call(s) <kind>:<t call us>:<t given up us>:hung:0 = %s: the call had not returned 2 s after it was made "
+                     "(the application goroutine is blocked inside the library); calls before it: %s" % (
+                         ",".join(hung), ",".join(o.split("sends=")[-1].split(" ")[0].split(",")[-6:-1])))
         failures.append({"signature": "C14:%s:%s" % (proto, kind), "ops": c.ops, "impl": [summarize(o)], "model": [m0], "label": c.label,
                          "predicate": {"name": "Ipfix.C14.%sVerdict" % proto, "value": v}, "note": note})
     fail_cases = {tuple(f["ops"]) for f in failures}
@@ -372,13 +481,17 @@ def run(ctx):
              for o in impl if o.startswith("udp "))
     ns = sum((0 if o.split("sends=")[-1].split(" ")[0] == "-" else o.split("sends=")[-1].split(" ")[0].count(",") + 1)
              for o in impl if o.startswith(("udp ", "tcp ")))
-    notes += ["PARTIAL: event-level protocol logic proved (17 theorems); timing, goroutine termination and data-race freedom observed: "
-              "%d sessions on real sockets under -race, %d datagrams and %d SendSet calls judged" % (len(cases), nd, ns),
+    notes += ["PARTIAL: event-level protocol logic proved (%d theorems); timing, goroutine termination and data-race freedom observed: "
+              "%d sessions on real sockets under -race (%d of them with a template the refresher cannot rebuild), %d datagrams and %d "
+              "SendSet calls judged, each call under a 2 s watchdog" % (
+                  len(check.theorem_names("C14")), len(cases), sum(1 for c in cases if "unrefreshable=" in c.ops[0]), nd, ns),
               "race detector log: " + ("EMPTY" if not race.strip() else excerpt),
               "Generated/LocksExporter.lean regenerated by tools/lockfacts-exporter at import of gen/c14.py" +
               (" FAILED: " + FACTS_ERROR if FACTS_ERROR else ""),
-              "static-only observation (not a failure of C14): sendRefreshedTemplates returns with templateMutex held if MakeTemplateSet "
-              "fails (pkg/exporter/process.go, the `return err` inside the locked loop); unreachable through the typed element constructors"]
+              "D17 (repaired in /repo b1c9ab2): sendRefreshedTemplates returned with templateMutex held when MakeTemplateSet failed - "
+              "reachable with a template that has a dateTimeMicroseconds / dateTimeNanoseconds element (no typed constructor is needed: a "
+              "template record takes any element whose value is empty); the unrefreshable sessions cover it: on the pre-fix file the "
+              "first SendSet after the first tick never returns (verdict send-never-returned)"]
     if os.environ.get("VERIF_MUTANT_OVERLAY"):
         notes.append("VERIF_MUTANT_OVERLAY in effect: " + ",".join(sorted(json.loads(os.environ["VERIF_MUTANT_OVERLAY"]))))
     uniq, seen_f = [], set()
